@@ -206,6 +206,14 @@ func c08Mutations() []propMut {
 		payloadMut("number+1", func(p *goatmodtypes.ExecutionPayload) { p.BlockNumber++ }, true),
 		payloadMut("number-1", func(p *goatmodtypes.ExecutionPayload) { p.BlockNumber-- }, true),
 		payloadMut("wrong-beacon-root", func(p *goatmodtypes.ExecutionPayload) { p.BeaconRoot = bytes.Repeat([]byte{5}, 32) }, true),
+		// non-canonical encodings of the fields the statement names: the execution layer only ever
+		// sees the last 32 / 20 bytes, so it answers VALID - the proposal still does not carry the
+		// recorded beacon root / parent / proposer
+		payloadMut("beacon-root-33-bytes", func(p *goatmodtypes.ExecutionPayload) { p.BeaconRoot = append([]byte{1}, p.BeaconRoot...) }, false),
+		payloadMut("beacon-root-64-bytes", func(p *goatmodtypes.ExecutionPayload) { p.BeaconRoot = append(bytes.Repeat([]byte{0}, 32), p.BeaconRoot...) }, false),
+		payloadMut("parent-hash-33-bytes", func(p *goatmodtypes.ExecutionPayload) { p.ParentHash = append([]byte{1}, p.ParentHash...) }, false),
+		payloadMut("fee-recipient-21-bytes", func(p *goatmodtypes.ExecutionPayload) { p.FeeRecipient = append([]byte{1}, p.FeeRecipient...) }, false),
+		payloadMut("fee-recipient-32-bytes", func(p *goatmodtypes.ExecutionPayload) { p.FeeRecipient = append(bytes.Repeat([]byte{0}, 12), p.FeeRecipient...) }, false),
 		payloadMut("zero-gas-requests", func(p *goatmodtypes.ExecutionPayload) { p.Requests = nil }, true),
 		payloadMut("two-gas-requests", func(p *goatmodtypes.ExecutionPayload) { p.Requests = gasReq(2) }, true),
 		payloadMut("undecodable-requests", func(p *goatmodtypes.ExecutionPayload) { p.Requests = [][]byte{{0x63, 1, 2, 3}} }, true),
@@ -290,7 +298,7 @@ func c08Mutations() []propMut {
 var bigZero = newBig(0)
 
 var c08MustNotMoveHead = map[string]bool{"block-message-missing": true, "block-message-shares-its-transaction": true, "authored-by-other-validator": true,
-	"signed-by-other-key": true, "wrong-fee-recipient": true, "wrong-parent-hash": true, "number+1": true, "number-1": true, "wrong-beacon-root": true,
+	"signed-by-other-key": true, "wrong-fee-recipient": true, "wrong-parent-hash": true, "number+1": true, "number-1": true, "wrong-beacon-root": true, "beacon-root-33-bytes": true, "beacon-root-64-bytes": true, "parent-hash-33-bytes": true, "fee-recipient-21-bytes": true, "fee-recipient-32-bytes": true,
 	"due-system-txs-omitted": true, "one-due-system-tx-omitted": true, "zero-gas-requests": true, "two-gas-requests": true, "undecodable-requests": true, "short-request": true, "invented-system-tx": true,
 	"extra-data-32-bytes": true, "timeout-height+1": true, "timeout-height-0": true, "memo": true, "nil-payload": true}
 
@@ -343,7 +351,7 @@ func runC08(r *mc.Run) {
 		r.SetBudget(170 * 1e9)
 	}
 	r.Bounds["depth_blocks"] = depth
-	r.Rule = "at every state of a tree search over block histories (2 validators, relayer proposer + 1 voter; menu with queue-filling events, unlock maturity, elections): (honest) for 7 mempool classes the real PrepareProposal output must be ACCEPTed by a second replica, carry <= 16 txs and its execution-block message must succeed in FinalizeBlock; (converse) 28 single mutations of a well-formed proposal must be rejected by ProcessProposal and must not move the head when finalised anyway; (schedules, races) see schedule_* keys"
+	r.Rule = "at every state of a tree search over block histories (2 validators, relayer proposer + 1 voter; menu with queue-filling events, unlock maturity, elections): (honest) for 7 mempool classes the real PrepareProposal output must be ACCEPTed by a second replica, carry <= 16 txs and its execution-block message must succeed in FinalizeBlock; (converse) 33 single mutations of a well-formed proposal must be rejected by ProcessProposal and must not move the head when finalised anyway; (schedules, races) see schedule_* keys"
 	r.Assumptions = []string{"validators' clocks are not behind the proposer's", "ELSim canonical mode defines the well-behaved execution layer"}
 	var explore func(r *mc.Run, only []enga.ABlock)
 	explore = func(r *mc.Run, only []enga.ABlock) {
